@@ -56,7 +56,7 @@ pub(crate) trait RawEncoder {
     type TraceId: From<emit::TraceId> + sval::Value;
     type SpanId: From<emit::SpanId> + sval::Value;
 
-    fn encode<V: sval::Value>(value: V) -> EncodedPayload;
+    fn encode<V: sval::Value>(value: V) -> Result<EncodedPayload, Error>;
 }
 
 #[derive(Default)]
@@ -139,7 +139,7 @@ impl RawEncoder for Proto {
     type TraceId = BinaryTraceId;
     type SpanId = BinarySpanId;
 
-    fn encode<V: sval::Value>(value: V) -> EncodedPayload {
+    fn encode<V: sval::Value>(value: V) -> Result<EncodedPayload, Error> {
         // Where possible, we want to pre-allocate buffers for protobuf encoding
         // Log data tends to be fairly normalized, so we can get a reasonable idea
         // of what to pre-allocate by watching the sizes of events as they run through
@@ -169,9 +169,11 @@ impl RawEncoder for Proto {
                 reuse.with_capacity(sval_protobuf::Capacity::next(&lc.window))
             };
 
-            // NOTE: protobuf encoding is infallible
+            // NOTE: protobuf encoding is infallible, but the value being encoded may not be
             let mut stream = sval_protobuf::ProtoBufStream::new_reuse(reuse);
-            value.stream(&mut stream).unwrap();
+            value
+                .stream(&mut stream)
+                .map_err(|_| Error::msg("failed to stream a value to protobuf"))?;
             let (payload, reuse) = stream.freeze_reuse();
 
             // Restore re-usable allocations
@@ -184,10 +186,10 @@ impl RawEncoder for Proto {
                 lc.reuse = Some(reuse);
             }
 
-            payload
-        });
+            Ok::<_, Error>(payload)
+        })?;
 
-        EncodedPayload::Proto(payload)
+        Ok(EncodedPayload::Proto(payload))
     }
 }
 
@@ -225,10 +227,11 @@ impl RawEncoder for Json {
     type TraceId = TextTraceId;
     type SpanId = TextSpanId;
 
-    fn encode<V: sval::Value>(value: V) -> EncodedPayload {
-        EncodedPayload::Json(JsonStr::boxed(
-            sval_json::stream_to_string(value).expect("failed to stream"),
-        ))
+    fn encode<V: sval::Value>(value: V) -> Result<EncodedPayload, Error> {
+        Ok(EncodedPayload::Json(JsonStr::boxed(
+            sval_json::stream_to_string(value)
+                .map_err(|_| Error::msg("failed to stream a value to JSON"))?,
+        )))
     }
 }
 
@@ -335,13 +338,21 @@ pub(crate) fn stream_attributes<'sval, S: sval::Stream<'sval> + ?Sized>(
 ) -> sval::Result {
     stream.seq_begin(None)?;
 
-    let _ = props.dedup().for_each(|k, v| {
-        for_each(AttributeStream(&mut *stream), k, v)
-            .map(|_| ControlFlow::Continue(()))
-            .unwrap_or(ControlFlow::Break(()))?;
+    let mut result = Ok(());
 
-        ControlFlow::Continue(())
+    let _ = props.dedup().for_each(|k, v| {
+        match for_each(AttributeStream(&mut *stream), k, v) {
+            Ok(()) => ControlFlow::Continue(()),
+            Err(e) => {
+                result = Err(e);
+                ControlFlow::Break(())
+            }
+        }
     });
+
+    // If an attribute fails to stream then the event it belongs to
+    // can't be encoded; carrying on would leave it half-written
+    result?;
 
     stream.seq_end()
 }
